@@ -66,7 +66,7 @@ def plan(tier):
         jobs.append(Job('%s.digits.%s' % (PROP, ts), kname, r'^auto cnl::to_chars<%s>\(char\*, char\*, %s const&, int\)$' % (dem(ts), dem(ts)),
                         digits_contract(t), harness=harness_buf(None, t, cap + 2), harness_pre=pre, prop=PROP, skip_this=False,
                         inputs=['vp_in1', 'vp_in2'], shim=sname, shim_types=['u64', ts], oracle=lambda n, v: ('value', 1),
-                        unwind=cap + 3, timeout=1800 if heavy else 600, solvers=('kissat', 'cadical') if heavy else ('minisat',), layer=1))
+                        unwind=cap + 3, timeout=1800 if heavy else 600, mem_gb=28 if heavy else 12, solvers=('kissat', 'cadical') if heavy else ('minisat',), layer=1))
     k = Kernel(kname, ''.join(src), [], 'integer text')
     meta = {'instantiations': len(jobs),
             'explanation': 'digit-by-digit characterisation of the canonical numeral with one ghost index (no quantifier), recursion unwound completely',
